@@ -11,7 +11,8 @@ from . import core
 
 VERIF = core.VERIF
 LEAN = os.path.join(VERIF, 'lean')
-EVID = os.path.join(VERIF, 'evidence')
+# VERIF_EVIDENCE_DIR: used only by tools/seedtest.py so that runs against seeded scratch trees never overwrite the real evidence
+EVID = os.environ.get('VERIF_EVIDENCE_DIR') or os.path.join(VERIF, 'evidence')
 REPLAYS = os.path.join(EVID, 'replays')
 ALLOWED_AXIOMS = {'propext', 'Classical.choice', 'Quot.sound'}
 FORBIDDEN = re.compile(r'\bsorry\b|\badmit\b|^axiom\s|native_decide|bv_decide|implemented_by|\bunsafe\s|maxHeartbeats\s+0\b', re.M)
